@@ -11,7 +11,8 @@
    OpMoveAt OpSetItemName OpRemoveFile OpRemoveFromFile.
    References WITHOUT string text are in neither map: never reported, and resolving them fails (C05_textless) —
    so "absent from the report iff resolving returns the target" holds for references with text only (C05_resolve).
-   [P] C05_inv_partial, C05_history_partial   [U] C05_report, C05_resolve, C05_textless *)
+   [P] C05_inv_partial, C45_inv_partial (with set_item_name), C05_history_partial (steps: Pending45)
+   [U] C05_report, C05_resolve, C05_textless *)
 From AV Require Import Base.Bytes Base.Outcome Hash.HashModel Tree.Heap Tree.Ops Tree.Script.
 From AV Require Import Tree.Index Tree.IndexProofs Tree.Refs Tree.RefsProofsReport Tree.RefsProofsOps Tree.IndexProofsTiny.
 Import Tiny.
@@ -28,6 +29,20 @@ Theorem C05_inv_partial :
   Pending05 w o = false ->
   run_op T tab_el tab_en check_fn LATEST root_attrs o w = Val (r, w') -> Inv05 T w'.
 Proof. exact RefsProofsOps.C05_inv_partial. Qed.
+
+(* C04 and C05 together, one step: covers Element::set_item_name too (it needs both invariants: RefsExact to know
+   that the rewritten referrers are reference elements, IndexExact for the freshness of the re-keyed paths).
+   Pending45 = OpCopy OpCopyAt OpMove OpMoveAt OpRemoveFile OpRemoveFromFile. *)
+Theorem C45_inv_partial :
+  forall (T : tables) (tab_el tab_en : nametab) (check_fn : N -> list N -> res bool) (LATEST : N)
+         (root_attrs : list (N * cdata)),
+  TablesOK T check_fn ->
+  forall (w : world) (o : op) (r : out value) (w' : world),
+  TreeFacts w -> Inv04 T check_fn w -> Inv05 T w ->
+  Known04 T LATEST w o = false -> Known05 T tab_el tab_en check_fn LATEST root_attrs w o = false ->
+  Pending45 w o = false ->
+  run_op T tab_el tab_en check_fn LATEST root_attrs o w = Val (r, w') -> Inv04 T check_fn w' /\ Inv05 T w'.
+Proof. exact RefsProofsOps.C45_inv_partial. Qed.
 
 Theorem C05_history_partial :
   forall (T : tables) (tab_el tab_en : nametab) (check_fn : N -> list N -> res bool) (LATEST : N)
